@@ -6,7 +6,7 @@ HARNESSES = wc.HARNESSES
 LEVEL_WITHOUT_PROOF = "other"
 
 CFG = dict(
-    mix=dict(create=5, destroynow=3, destroy=2, update=1, cleararch=1, lock=1, unlock=1, query=2, dump=1),
+    mix=dict(create=5, destroynow=3, destroy=2, update=1, cleararch=1, lock=1, unlock=1, query=2, dump=1, parjob=1),
     corpus=[x for x in "C01".split(",")],
     n_quick=500, n_thorough=6000, len=(8, 45),
     gen=dict(lock_bias=0.2, max_threads=4),
